@@ -315,6 +315,63 @@ func c01CaseCut(ts []c01StrTest, m string) *cut {
 	return k
 }
 
+// c01CaseCutP extends c01CaseCut with module predicates on descriptors used as
+// If conditions (e.g. descriptor.IsManifest(p)): the predicate's own media-type
+// dispatch is evaluated for m and the edge it excludes is added.  Predicates
+// whose answer for m cannot be determined are reported in undecided.
+func c01CaseCutP(fn *ssa.Function, ts []c01StrTest, m string, isSubj func(v ssa.Value) bool) (k *cut, undecided []string) {
+	k = c01CaseCut(ts, m)
+	for _, i := range Ifs(fn) {
+		cond, t, f := ifEdges(i)
+		call, ok := cond.(*ssa.Call)
+		if !ok {
+			continue
+		}
+		g := StaticCallee(call)
+		if g == nil || !inModule(g) || len(g.Blocks) == 0 || g.Signature.Results().Len() != 1 {
+			continue
+		}
+		takesDesc := false
+		for _, a := range call.Call.Args {
+			if c01IsOCIDescriptor(a.Type()) {
+				takesDesc = true
+			}
+		}
+		if !takesDesc {
+			continue
+		}
+		gt := c01StrTests(g, isSubj)
+		if len(gt) == 0 {
+			continue // not a media-type predicate
+		}
+		gk := c01CaseCut(gt, m)
+		canTrue, canFalse, other := false, false, false
+		for _, r := range Returns(g) {
+			if !c01Feasible(r, gk) {
+				continue
+			}
+			kc, isConst := r.Results[0].(*ssa.Const)
+			switch {
+			case !isConst:
+				other = true
+			case boolConst(kc):
+				canTrue = true
+			default:
+				canFalse = true
+			}
+		}
+		switch {
+		case other || (canTrue && canFalse) || (!canTrue && !canFalse):
+			undecided = append(undecided, FnName(g))
+		case canTrue:
+			k.Edges(f)
+		default:
+			k.Edges(t)
+		}
+	}
+	return
+}
+
 // c01EmptyStrEdges: edges on which a string x with match(x) is known to be
 // empty / non-empty (x == "", x != "", len(x) == 0 …).
 func c01EmptyStrEdges(fn *ssa.Function, match func(x ssa.Value) bool) (empty, nonEmpty []Edge) {
